@@ -787,7 +787,10 @@ class SecureSequenceTimer:
             )
             self.timekeeper = True
         except asyncio.CancelledError:
-            return
+            if waiter_fut.cancelled():
+                # `stop()` while synchronizing - eg. the user disconnected
+                raise CommunicationError("Timer synchronization aborted") from None
+            raise
         finally:
             self._expected_notify_handler = None
         self.timer_authenticated = True
